@@ -338,7 +338,8 @@ func runOp3(c *hlib.Ctx, st *state3, m *model3d.Mesh, forced int) result3 {
 	case 13: // ARAP
 		r.kind = "arap3"
 		vs := sortedVerts()
-		if len(vs) > 120 || len(vs) < 4 {
+		if len(vs) > 120 || len(vs) < 4 || components3(st.soup) != 1 {
+			// ARAP's linear system is singular for a component without any constraint
 			r.skipped = true
 			return r
 		}
@@ -431,4 +432,31 @@ func overlapping3(m *model3d.Mesh) bool {
 		}
 	})
 	return clash
+}
+
+func components3(soup [][3]int) int {
+	parent := map[int]int{}
+	var find func(int) int
+	find = func(x int) int {
+		if p, ok := parent[x]; ok && p != x {
+			r := find(p)
+			parent[x] = r
+			return r
+		}
+		parent[x] = x
+		return x
+	}
+	for _, t := range soup {
+		a, b, c := find(t[0]), find(t[1]), find(t[2])
+		parent[b] = a
+		parent[find(c)] = a
+		_ = c
+	}
+	n := 0
+	for x := range parent {
+		if find(x) == x {
+			n++
+		}
+	}
+	return n
 }
